@@ -474,7 +474,9 @@ public:
         histogram sub_h;
         std::for_each(base_t::begin(), base_t::end(), [&](value_t const& k) {
             auto tmp_key = detail::tuple_to_tuple(k.first, seq2{});
-            if (low_key <= tmp_key && tmp_key <= high_key)
+            // every selected axis has to be in its range: std::tuple's operator<= is lexicographic and
+            // with two or more axes kept the bins whose first axis is strictly inside, whatever the others
+            if (detail::tuple_compare(low_key, tmp_key) && detail::tuple_compare(tmp_key, high_key))
                 sub_h[k.first] += base_t::operator[](k.first);
         });
         return sub_h;
